@@ -31,30 +31,40 @@ def uws(ne):
 
 def jobs(tier, seed):
     J = []
+    # NOERROR jobs fix the section of each of the 3 RR slots (symbolic sections make the minimum over three scans a hard SAT
+    # instance: 90-240 s); NXDOMAIN / other rcodes keep the sections symbolic.
+    ALLSECTS = [100 * a + 10 * b + c for a in (1, 2, 3) for b in (1, 2, 3) for c in (1, 2, 3)]
     RC = [(0, "noerror", "rcode NOERROR"), (3, "nxdomain", "rcode NXDOMAIN"), (-1, "otherrc", "any rcode other than NOERROR/NXDOMAIN")]
     for old in (None, 0, 1, 2):
         for rc, rcname, rcdesc in RC:
             if old is not None and tier == "quick" and rc < 0:
                 continue
-            wit = ["end"]
             if rc == 0:
-                wit += ["noerror cached", "noerror with soa cached", "refused rcode/tc", "refused ttl 0", "replayed", "expired, not replayed"]
-            elif rc == 3:
-                wit += ["nxdomain cached", "refused rcode/tc", "refused ttl 0", "replayed", "expired, not replayed"]
+                sects = ALLSECTS if tier != "quick" else ((123, 111, 221, 312) if old is None else (123, 212))
             else:
-                wit += ["refused rcode/tc"]
-            if old in (0, 1):
-                wit.append("older entry replayed")
-            if old is None and rc >= 0:
-                wit.append("refused max_ttl 0")
-            J.append(dict(name="c08_insert_%s_%s" % ("empty" if old is None else "old%d" % old, rcname), harness="qcache_step.c",
-                          defines=["-DOP=0", "-DRCODE=%d" % rc] + ([] if old is None else ["-DOLD=%d" % old]), real=KEYREAL,
-                          support=KSUP, unwind=24, unwindset=uws(2), kf_group="c08_insert", witnesses=wit,
-                          bound="fresh cache (any max_ttl) %s; response with %s, any 16 flag bits, 0..3 RRs each with any "
-                                "section/type/TTL/SOA MINIMUM; any now in 0..2^40 s; ONE ares_qcache_insert, then ONE ares_qcache_fetch "
-                                "of the same request at any later time" %
-                                ("without entries" if old is None else "holding one older entry (%s, any times, indexed or not)" % KIND[old],
-                                 rcdesc)))
+                sects = (None,)
+            for sc in sects:
+                wit = ["end"]
+                if rc == 0:
+                    wit += ["noerror cached", "noerror with soa cached", "refused rcode/tc", "refused ttl 0", "replayed", "expired, not replayed"]
+                elif rc == 3:
+                    wit += ["nxdomain cached", "refused rcode/tc", "refused ttl 0", "replayed", "expired, not replayed"]
+                else:
+                    wit += ["refused rcode/tc"]
+                if old in (0, 1):
+                    wit.append("older entry replayed")
+                if old is None and rc >= 0:
+                    wit.append("refused max_ttl 0")
+                J.append(dict(name="c08_insert_%s_%s%s" % ("empty" if old is None else "old%d" % old, rcname, "" if sc is None else "_s%d" % sc),
+                              harness="qcache_step.c",
+                              defines=["-DOP=0", "-DRCODE=%d" % rc] + ([] if old is None else ["-DOLD=%d" % old]) +
+                                      ([] if sc is None else ["-DSECTS=%d" % sc]),
+                              real=KEYREAL, support=KSUP, unwind=24, unwindset=uws(2), kf_group="c08_insert", witnesses=wit,
+                              bound="fresh cache (any max_ttl) %s; response with %s, any 16 flag bits, 0..3 RRs each with any type/TTL/SOA "
+                                    "MINIMUM and %s; any now in 0..2^40 s; ONE ares_qcache_insert, then ONE ares_qcache_fetch of the same "
+                                    "request at any later time" %
+                                    ("without entries" if old is None else "holding one older entry (%s, any times, indexed or not)" % KIND[old],
+                                     rcdesc, "any section" if sc is None else "sections %s (1 answer, 2 authority, 3 additional)" % sc)))
     shapes = [()] + [(a,) for a in (0, 1, 2)] + [(0, 0), (0, 1), (0, 2), (2, 0), (2, 2)]
     if tier != "quick":
         shapes += [(1, 0), (1, 1), (1, 2), (2, 1), (0, 1, 2), (0, 0, 2), (2, 0, 0), (0, 0, 0)]
@@ -123,13 +133,17 @@ def jobs(tier, seed):
     # (d) server-list change => flush
     for ns, nc in ((0, 1), (1, 1), (1, 2), (2, 1), (2, 2), (1, 0)) + (((2, 3), (3, 2)) if tier != "quick" else ()):
         wit = ["end"] + (["set changed, flushed"] if (ns, nc) != (0, 0) else []) + (["list unchanged"] if ns >= 1 and nc >= ns else []) + \
-              (["order changed only"] if ns >= 2 and nc >= 2 else [])
+              (["order changed only"] if ns >= 2 and nc >= ns else [])
         J.append(dict(name="c08_srvflush_ns%d_nc%d" % (ns, nc), harness="servers_flush.c", defines=["-DNS=%d" % ns, "-DNC=%d" % nc],
                       real=LIB + ["src/lib/dsa/ares_llist.c", "src/lib/str/ares_str.c"],
                       support=["vp_rt.c", "valloc.c", "memloops.c", "slist_ref.c"], unwind=max(ns, nc) + 3, kf_group="c08_srvflush",
                       unwindset=["ares_strlen.0:2", "strlen.0:2", "memcmp.0:6", "memcpy.0:17"], witnesses=wit,
                       bound="%d existing servers (IPv4, last byte 1..3, ports 53|54, no failures) and a new configuration of %d "
                             "entries (last byte 1..3, ports default|53|54), PRIMARY flag or not; ONE ares_servers_update" % (ns, nc)))
+    J.append(dict(name="c08_reinit_flush", harness="reinit_flush.c", real=[], support=["vp_rt.c", "lock_ghost.c"], unwind=4,
+                  witnesses=["end", "skipped", "reinit flushed", "sysconfig failed", "thread create failed"],
+                  bound="channel up/down, reinit pending or not, threads available or not, thread start succeeds or fails, system "
+                        "configuration read returns any status; ONE ares_reinit with the thread body run synchronously"))
     for j in J:
         j["defines"] = j.get("defines", []) + EXTRA
     return J
